@@ -390,6 +390,11 @@ def m_astype(I, e, args, kws):
     if dt is not None and (dt.tag("builtin") == "int" or dt.tag("exttype") in ("numpy.int64", "numpy.int32", "numpy.intp") or (dt.known and dt.const in ("int", "int64", "i8"))) and x.tag("sum_dim") is None and not x.tag("indices") and x.tag("kind") == "ndarray" \
             and not x.tag("boolarr"):
         out.tags["rounded"] = "trunc"          # truncation of a real-valued array: sums are not preserved
+    if x.tag("boolarr") and dt is not None and not (dt.tag("builtin") == "bool" or (dt.known and dt.const in ("bool", "?"))
+                                                    or dt.tag("exttype") in ("numpy.bool_", "numpy.bool")):
+        # a boolean mask cast to numbers is the array of 0s and 1s: used as an index it selects positions 0 and 1, not the masked entries
+        out.tags.pop("boolarr", None)
+        out.tags["mask_as_numbers"] = True
     return out
 
 
@@ -860,6 +865,14 @@ def m_tensordot(I, e, args, kws):
     if la is not None and fb is not None:
         return binop(I, e, ast.MatMult(), la, fb)
     out = mk([a, b], fresh="FRESH", unit=umul(a.unit, b.unit, 1), tags={"kind": "ndarray", "notstr": True})
+    # general rank: ALL remaining axes of a come before ALL remaining axes of b (no batch axes are paired, unlike `@`)
+    if ia is not None and ib is not None and a.shape is not None and b.shape is not None and not a.shape.ell and not b.shape.ell \
+            and -a.shape.rank <= ia < a.shape.rank and -b.shape.rank <= ib < b.shape.rank:
+        aa, bb = list(a.shape.axes), list(b.shape.axes)
+        ca, cb = aa.pop(ia), bb.pop(ib)
+        if ca is not None and cb is not None and ca != cb and ca != () and cb != ():
+            I.type_error(e, "SHAPE", f"np.tensordot contracts axis {dim_str(ca)} of {a.shape} with axis {dim_str(cb)} of {b.shape}")
+        out.shape = Shape(tuple(aa) + tuple(bb))
     return out
 
 
@@ -1045,14 +1058,57 @@ def m_cumsum(I, e, args, kws):
 def m_diff(I, e, args, kws):
     x = args[0]
     out = mk(args, fresh="FRESH", unit=x.unit, tags={"kind": "ndarray"})
+    if x.tag("point") and not x.tag("sorted") and (x.shape is None or x.shape.rank == 1):
+        # successive differences of coordinates AS STORED: for a descending / shuffled domain they are negative / arbitrary steps
+        out.data = out.data | {f"pick@{I.fr.fn.module.relpath}:{e.lineno}"}
+        I.emit("positional_pick", e, base=x, index="diff")
     if x.shape is not None and x.shape.axes:
-        out.shape = Shape(x.shape.axes[:-1] + (None,), x.shape.ell)
+        ax = axis_arg(args, kws, 2, -1)
+        n_ = arg(args, kws, 1, "n")
+        if ax in (None, "?") or (x.shape.ell and ax >= 0) or not (-len(x.shape.axes) <= ax < len(x.shape.axes)):
+            out.shape = Shape(x.shape.axes[:-1] + (None,), x.shape.ell)
+        else:
+            a = list(x.shape.axes)
+            a[ax] = _shortened(a[ax]) if n_ is None or (n_.known and n_.const == 1) else None
+            out.shape = Shape(a, x.shape.ell)
     return out
+
+
+def _shortened(d):
+    """the extent n − 1 of a named axis n (np.diff, np.delete of one position): a name of its own, so that it is not laid along another axis"""
+    if isinstance(d, tuple) and len(d) == 1 and isinstance(d[0], str) and not d[0].endswith("-1"):
+        return (d[0] + "-1",)
+    return None
 
 
 @model("numpy.sort", "numpy.unique")
 def m_sort(I, e, args, kws):
     x = args[0]
+    if "sort" in M.norm_text(e.func) and x.items is not None and len(x.items) >= 2 and x.tag("kind") in ("list", "tuple") \
+            and all(it.shape is not None and not it.shape.ell and it.shape.rank >= 1 for it in x.items):
+        # np.sort([a, b]): the rows of the stack are sorted along `axis` (default: the LAST one, i.e. within each row). Within a row the
+        # entries change places (row i is a re-ordered a / b: a lossy image); along axis 0 each position keeps its column (min / max pairs)
+        ax = axis_arg(args, kws, 1, -1)
+        rows = []
+        for it in x.items:
+            r_ = it.copy(term=mk_term("sort", it.term))
+            r_.items = None
+            r_.fresh = "FRESH"
+            r_.tags["sorted"] = True
+            if ax in (-1, it.shape.rank):
+                lossy(I, e, r_, it, "sort")
+            else:
+                for o_ in x.items:
+                    if o_ is not it:
+                        f_ = o_.flat()
+                        r_.data |= f_.data
+                        r_.shp |= f_.shp
+            rows.append(r_)
+        out = mk(rows, fresh="FRESH", unit=x.items[0].unit, tags={"kind": "ndarray", "sorted": True})
+        out.items = rows
+        sh0 = x.items[0].shape
+        out.shape = Shape((("#%d" % len(rows),),) + tuple(sh0.axes)) if all(it.shape == sh0 for it in x.items) else None
+        return out
     out = mk(args + list(kws.values()), fresh="FRESH", unit=x.unit, frame=x.frame, sign=x.sign, tags={"kind": "ndarray"})
     out.tags["sorted"] = True
     if x.tag("point"):
@@ -1280,8 +1336,9 @@ def m_delete(I, e, args, kws):
     ax = axis_arg(args, kws, 2, None)
     if x.shape is not None and not x.shape.ell and ax not in (None, "?"):
         a = list(x.shape.axes)
+        idx_ = arg(args, kws, 1, "obj")
         try:
-            a[ax] = None
+            a[ax] = _shortened(a[ax]) if (idx_ is not None and idx_.known and isinstance(idx_.const, int) and not isinstance(idx_.const, bool)) else None
             out.shape = Shape(a)
         except IndexError:
             pass
@@ -1301,6 +1358,42 @@ def m_npshape(I, e, args, kws):
     from .extern import attribute
     x = args[0]
     fake = ast.Attribute(value=e.args[0], attr="shape", ctx=ast.Load())
+    ast.copy_location(fake, e)
+    return attribute(I, fake, x)
+
+
+@model("numpy.squeeze")
+def m_squeeze(I, e, args, kws):
+    """np.squeeze(x): every length-1 axis is removed (all of them without axis=) — what remains broadcasts from the LAST axis"""
+    x = args[0]
+    out = x.copy(term=mk_term("squeeze", x.term))
+    out.items = None
+    ax = axis_arg(args, kws, 1, None)
+    if x.shape is not None and not x.shape.ell:
+        axes = list(x.shape.axes)
+        if ax is None:
+            out.shape = Shape(tuple(a for a in axes if a != ())) if all(a is not None for a in axes) else None
+        elif ax != "?" and -len(axes) <= ax < len(axes):
+            axes.pop(ax)
+            out.shape = Shape(tuple(axes))
+        else:
+            out.shape = None
+        if out.shape is not None:
+            out.tags["ndim"] = len(out.shape.axes)
+    else:
+        out.shape = None
+    return out
+
+
+@model("numpy.ndim")
+def m_npndim(I, e, args, kws):
+    # np.ndim(x) is x.ndim for arrays and 0 for plain numbers
+    from .extern import attribute
+    x = args[0]
+    if x.tag("isnum") and x.shape is None:
+        f = x.flat()
+        return Val(const=0, shp=f.data | f.shp, ctrl=f.ctrl, tags={"kind": "int"}, unit=ONE)
+    fake = ast.Attribute(value=e.args[0], attr="ndim", ctx=ast.Load())
     ast.copy_location(fake, e)
     return attribute(I, fake, x)
 
@@ -1356,6 +1449,11 @@ def m_norm(I, e, args, kws):
         out.shape = reduce_shape(x.shape, ax if ax is not None else "?", False)
     o = arg(args, kws, 1, "ord")
     out.tags["norm_ord"] = o.const if (o is not None and o.known) else ("default" if o is None else None)
+    if out.tags["norm_ord"] in (1, 2, -1, -2, float("inf"), float("-inf"), "nuc") and kws.get("axis") is None and len(args) < 3 \
+            and x.shape is not None and not x.shape.ell and x.shape.rank == 2:
+        # for a MATRIX and no axis, ord=1 / 2 / inf are operator norms (largest column sum, largest singular value, largest row sum),
+        # not the entrywise vector norms
+        out.tags["norm_ord"] = f"matrix-{out.tags['norm_ord']}"
     out.tags["norm_of"] = x.term
     if x.tag("deg") is not None:
         out.tags["deg"] = dict(x.tag("deg"))      # a norm is positively homogeneous of degree one
